@@ -366,6 +366,14 @@ func generate(cfg *hx.Config) []hx.Case {
 	}
 	add("multi", []string{"MULTI", "D+t2000", "|", "e0", "b0", "cI/t", "ch/th", "|", "e0", "b0", "cI/t", "ch/th", "|", "e0", "b0", "c31/t", "c/th", "ch/t", "|", "e1", "b0", "c4097/t4095", "ch/th"})
 
+	// 1j. (thorough only: 11 s each) a long-lived tunnel: idle longer than any set-up deadline,
+	// then traffic both ways — byte transparency holds for ANY timing of writes
+	if cfg.Thorough() {
+		for _, v := range []string{"D", "M", "F", "F201", "M+s"} {
+			add("long", []string{"TUN", v, "e3", "b0", "c5/t6", "cL/t", "c31/t37", "c4097/t5000", "ch/t", "c/t9h"})
+		}
+	}
+
 	// 2. early data / banner boundaries around the 4096-byte bufio buffers
 	for _, v := range vias {
 		for _, e := range earlies[3:] {
